@@ -13,6 +13,7 @@ Sampled part (pickle / pydantic / orjson): ekw/c17_sampled.py.
 import dataclasses
 import enum
 import glob
+import hashlib
 import json
 
 PROPERTY = "C17"
@@ -506,6 +507,13 @@ def _run_sampled(ctx, n_per_family, with_model=False):
                       f"importing the message modules raised {type(e).__name__}: {e}")
         return
     cases = [c for c in _load_corpus() if c.get("family") in S.FAMILIES]
+    try:
+        sweep = S.sweep_cases()
+    except Exception as e:      # a message class the sweep cannot enumerate (new field type): the random part still runs
+        sweep = []
+        ctx.notes.append(f"sampled sweep not built: {type(e).__name__}: {e}")
+    ctx.count("sampled:sweep", len(sweep))
+    cases += sweep
     for fam in sorted(S.FAMILIES):
         for _ in range(n_per_family):
             cases.append(S.FAMILIES[fam][0](ctx.rng))
@@ -517,17 +525,16 @@ def _run_sampled(ctx, n_per_family, with_model=False):
         fam = case["family"]
         ctx.case({"family": fam, "cls": case["cls"], "pipe": case["pipe"], "status": r["status"]}, nontrivial=False, sample_every=400)
         if r["status"] != "not-a-value":
-            ctx.nontrivial_keys.add(json.dumps(case, sort_keys=True)[:20000])
+            ctx.nontrivial_keys.add(hashlib.sha1(json.dumps(case, sort_keys=True).encode()).hexdigest())
         ctx.count(f"{fam}:{r['status']}")
         ctx.count(f"{fam}:cls:{case['cls']}")
         ctx.count(f"{fam}:pipe:{case['pipe']}")
         for p in r["domain_problems"]:
             ctx.count(f"{fam}:outside-domain:{p}")
-        if fam == "job" and "probe" not in case:
-            multi, kw, ps = S.job_shape(case["spec"])
-            ctx.count("job:multi_output_tasks", multi)
-            ctx.count("job:keyword_edges", kw)
-            ctx.count("job:positional_edges", ps)
+        if "sweep" in case:
+            ctx.count(f"{fam}:sweep")
+        for k, n in S.shape_counts(case).items():
+            ctx.count(f"{fam}:{k}", n)
         if r["status"] == "ok":
             ctx.traces += 1
             if with_model and fam == "job" and S.LAST_JOB_BYTES[0] is not None and len(S.LAST_JOB_BYTES[0]) < 200000:
